@@ -123,15 +123,19 @@ def confirm(check):
     for (tid, seq, clause) in sorted(second):
         prog, evs = bytid[tid]
         pre = {}
-        for e in evs[:seq]:
+        before = [e for e in evs if e['seq'] < seq]
+        this = [e for e in evs if e['seq'] == seq][0]
+        for e in before:
+            for d in e.get('drop', []):
+                pre.pop(d, None)
             pre.update(e['post'])
         # remember construction route of objects made by 'mk'
-        for e in evs[:seq]:
+        for e in before:
             if e['op'] == 'mk' and e['out']['ids']:
                 oid = e['out']['ids'][0]
                 if oid in pre:
                     pre[oid] = dict(pre[oid], route=e['sa'][1])
-        out.append({'tid': tid, 'seq': seq, 'clause': clause, 'ev': evs[seq], 'pre': pre, 'prog': prog})
+        out.append({'tid': tid, 'seq': seq, 'clause': clause, 'ev': this, 'pre': pre, 'prog': prog})
     check.flaky = sorted(first - second)
     if check.flaky:
         check.notes.append(f'{len(check.flaky)} rejections did not reproduce in a fresh interpreter (ignored): '
@@ -201,7 +205,8 @@ def replay(path):
         print(json.dumps(ev)[:1500])
     if v['rejects']:
         for tid, seq, clause in v['rejects']:
-            print(f'REJECTED by the specification: call #{seq} ({evs[seq]["op"]}), clause {clause}')
+            opn = [e['op'] for e in evs if e['seq'] == seq][0]
+            print(f'REJECTED by the specification: call #{seq} ({opn}), clause {clause}')
         print(f"VIOLATION property={body['property']} replay={path}")
         return 1
     print('ACCEPTED: every event conforms to the specification')
